@@ -451,6 +451,17 @@ def r15_8(ctx):
                     ok = any(isinstance(b, ast.Subscript) and isinstance(b.slice, ast.Tuple) and len(b.slice.elts) == 2 and ast.unparse(b.slice.elts[1]) == ":" for b in branches)
             elif isinstance(sel, ast.Subscript) and ast.unparse(sel.value) == "%s.coeffs" % owner:
                 ok = isinstance(sel.slice, ast.Tuple) and len(sel.slice.elts) == 2 and ast.unparse(sel.slice.elts[1]) == ":"
+            else:
+                # the selection written out (or an inlined helper): some branch of the conditional expression selects rows
+                leaves, work = [], [sel]
+                while work:
+                    e = work.pop()
+                    if isinstance(e, ast.IfExp):
+                        work += [e.body, e.orelse]
+                    else:
+                        leaves.append(e)
+                ok = len(leaves) > 1 and all(isinstance(b, ast.Subscript) and ast.unparse(b.value) == "%s.coeffs" % owner for b in leaves) and \
+                    any(isinstance(b.slice, ast.Tuple) and len(b.slice.elts) == 2 and ast.unparse(b.slice.elts[1]) == ":" for b in leaves)
             ctx.check(ok, "BSpline.__mul__ selects coefficient rows of %s" % owner, detail="linear indexing of a coefficient matrix: only the first component of a vector-valued state enters the product (the other components are not certified)",
                       expected="%s.coeffs[idx, :]" % owner, found=ast.unparse(side), fi=f, node=st, sample={"operand": ast.unparse(side)})
 
